@@ -306,6 +306,22 @@ def run():
     ctx0.drift = []
     fncommon.validate(ctx0, n2, "Trace_Newton", "stn", nshards=1)
     t.check("newton run stopped one pass early (step still above tol) -> that run is rejected (drift)", [d["case"] for d in ctx0.drift] == [nws[j]["id"]])
+    scc = [c for c in c08.systems(rng0, 80) if c["method"] == "secant" and c["dim"] >= 2 and not c.get("singular")][:15]
+    for k, c in enumerate(scc):
+        c["id"] = k + 1
+    scs = [{"id": r_["id"], "method": r_["method"], "dim": r_["dim"], "start": r_["start"], "h": r_["h"], "tol": r_["tol"], "n_max": r_["n_max"], "obs": r_["obs"]}
+           for r_ in fncommon.observe(ctx0, "iter", scc, "stsc", nproc=1)]
+    ctx0.drift = []
+    fncommon.validate(ctx0, scs, "Trace_Secant", "stsc", nshards=1)
+    t.check("clean secant() traces admitted by Broyden's defining equations (SecantP over doubles, refinement)", not ctx0.drift and len(scs) == 15, "%d runs" % len(scs))
+    j = next(k for k, r_ in enumerate(scs) if r_["obs"]["ret"] == "ok" and len(r_["obs"]["calls"]) >= 2 * r_["dim"] + 4)
+    sc2 = copy.deepcopy(scs)
+    q = 2 * sc2[j]["dim"] + 2                      # the second loop pass: its argument is the guess after one Broyden update
+    xq = sc2[j]["obs"]["calls"][q]["x"]
+    sc2[j]["obs"]["calls"][q]["x"] = [vlib.float_to_pair(vlib.pair_to_float(xq[0]) * (1 + 1e-3) + 1e-3)] + xq[1:]
+    ctx0.drift = []
+    fncommon.validate(ctx0, sc2, "Trace_Secant", "stsc", nshards=1)
+    t.check("one secant guess moved by 1e-3 (not the Broyden step) -> that run is rejected (drift)", [d["case"] for d in ctx0.drift] == [scs[j]["id"]])
     # ---- binding: IVP contract trace -----------------------------------------------------------------
     ctx = vlib.Ctx("SELFTEST", "quick", 1, "other")
     rng = random.Random(7)
